@@ -557,7 +557,7 @@ def extract_matching_loci(loci, fasta, in_window=2114, out_window=1000,
 				break
 
 			idx = i - offset
-			if idx > 0:
+			if idx >= 0:
 				count = min(bg_bin_count[idx], loci_bin_count[i])
 				bg_bin_count[idx] -= count
 				loci_bin_count[i] -= count
